@@ -46,6 +46,18 @@ Per item (when >= 1 point is masked):
   mask-presence      ... and on the data set that consists of the unmasked points only -> bit-identical as well
                      ("masked points never influence any of it": neither their values nor their being there)
 
+List-valued arguments.  Wherever an entry point takes a list it is also fed hostile spellings of it: `num_RCs` of
+evaluate_log_F_ext / perform_exploratory_kramers_kronig_tests explicit and ascending | descending | shuffled | with repeated
+entries (cells logfext-list, explore-list, and the explicit-list branch of logfext; least-squares tests real/complex/imaginary
+and the three -inv tests, both representations), `methods` of the num_RC suggestion shuffled/repeated, `method`/`weight` lists of
+fit_circuit permuted and with repeated entries.  tuple / numpy-array spellings of `num_RCs` are tried rarely: the unchanged
+tree refuses them up front (TypeError) - counted under raised.*, never a verdict.  All clauses above apply to EVERY result
+object these calls construct or return (one per requested num_RC, repeated ones included), not only to the suggested one; a
+result whose pseudo_chisqr belongs to a different num_RC than its circuit/impedances/residuals fails the chisqr clause.
+(num_RC of a KramersKronigResult is derived from its circuit, so "num_RC matches the circuit" is true by construction and is
+not a separate clause.)  When base and variant raise the same exception type, the result objects constructed before the
+raise are still compared bit by bit (stats compared.*-partial).
+
 Latitude: an analysis that raises on base AND on every variant with the same exception type produced no result; that
 is counted (stats raised:*) and left to C18 - C08 constrains results.  finalize() turns a run in which an entry point
 never produced a checked result, or raised in more than half of its calls, into INCONCLUSIVE.  Non-finite reference
@@ -74,7 +86,10 @@ RULE = (
     "perform_exploratory_kramers_kronig_tests, perform_zhit (5 smoothings x 4 interpolations x windows/custom weights x Z/Y, "
     "one-dimensional 'auto'), calculate_drt tr-nnls (real/imaginary/complex x fixed/suggested/L-curve lambda), lm (automatic, "
     "explicit order, pseudo_chisqr order search), bht (seeded), mrq-fit (with and without a fit object), fit_circuit (single "
-    "method/weight, lists, auto).  Thorough tier: ~10x the cases, half of them with the wide parameter range (resistance "
+    "method/weight, lists, auto).  List arguments are also given unsorted and with repeated entries: explicit num_RCs "
+    "(ascending, descending, shuffled, duplicated; rarely as tuple/ndarray, which the library refuses) for evaluate_log_F_ext and "
+    "perform_exploratory_kramers_kronig_tests with the real/complex/imaginary and -inv tests in both representations, the "
+    "`methods` list of the num_RC suggestion, fit_circuit method/weight lists.  Thorough tier: ~10x the cases, half of them with the wide parameter range (resistance "
     "scale 1e-2..1e6 ohm), Z-HIT up to 60 points, plus the slow cells (Z-HIT with all three options 'auto', Loewner order search "
     "with the default automatic Kramers-Kronig test inside, automatic num_RC with the cnls test).  Every result object constructed during a call is checked; each item is re-run with "
     "poisoned masked points and with the masked points removed.  A case is non-trivial when >= 1 result was checked; "
@@ -313,6 +328,10 @@ def _invoke(item, ds, circuit, hooks):
 
     op = item["op"]
     o = dict(item["opts"])
+    o.pop("num_RCs_order", None)
+    form = o.pop("num_RCs_form", "list")
+    if "num_RCs" in o:
+        o["num_RCs"] = {"list": list, "tuple": tuple, "ndarray": np.array}[form](o["num_RCs"])
     if op == "kk":
         r = pyimpspec.perform_kramers_kronig_test(ds, num_procs=1, **o)
         return [r], ()
@@ -498,6 +517,11 @@ def check_item(item, acc):
     f, Z, M = _arrays(item)
     f_u, Z_u = f[~M], Z[~M]
     acc.stat("items." + cell)
+    if "num_RCs_order" in item["opts"]:
+        acc.stat(f"list-arg.{item['op']}.num_RCs.{item['opts']['num_RCs_order']}")
+        acc.stat(f"list-arg.{item['op']}.num_RCs.form-{item['opts'].get('num_RCs_form', 'list')}")
+    if "methods" in item["opts"]:
+        acc.stat(f"list-arg.{item['op']}.methods")
     runs = {}
     for variant in ["base"] + list(item.get("variants", [])):
         run = run_variant(item, variant)
@@ -529,10 +553,10 @@ def check_item(item, acc):
             b = "returned" if run["exc"] is None else "raised " + _exc_desc(run["exc"])
             acc.bad(f"C08/{clause}-raised:{cell}", f"{cell}: base run {a}; the run {what} {b}", item)
             continue
-        if base["exc"] is not None:
-            if type(base["exc"]) is not type(run["exc"]):
-                acc.bad(f"C08/{clause}-raised:{cell}", f"{cell}: base run raised {_exc_desc(base['exc'])}; the run {what} raised {_exc_desc(run['exc'])}", item)
+        if base["exc"] is not None and type(base["exc"]) is not type(run["exc"]):
+            acc.bad(f"C08/{clause}-raised:{cell}", f"{cell}: base run raised {_exc_desc(base['exc'])}; the run {what} raised {_exc_desc(run['exc'])}", item)
             continue
+        # both returned, or both raised the same exception type: whatever was constructed on the way must still agree
         if len(base["rec"]) != len(run["rec"]):
             acc.bad(f"C08/{clause}:{cell}", f"{cell}: {len(base['rec'])} result objects were constructed in the base run, {len(run['rec'])} in the run {what}", item)
             continue
@@ -549,7 +573,7 @@ def check_item(item, acc):
                 diff = f"different result objects were returned (indices among the constructed results {ia[:6]} vs {ib[:6]})"
             elif base["extra"] != run["extra"]:
                 diff = "the returned structure (extension/statistic/suggestion values) differs"
-        acc.stat("compared." + clause)
+        acc.stat("compared." + clause + ("" if base["exc"] is None else "-partial"))
         if diff is not None:
             acc.bad(f"C08/{clause}:{cell}", f"{cell}: the run {what} is not bit-identical to the base run: {diff}", item)
     nres = len(base["rec"])
@@ -679,6 +703,79 @@ def opts_kk_auto(test=None, nfext=None):
     return fn
 
 
+def _list_arg(rng, values, forms=True):
+    """A list-valued argument in a hostile spelling: (values in some order, order tag, container form).
+    Orders: ascending, descending, shuffled, duplicated (shuffled with 1..3 repeated entries).  Forms: list mostly; tuple and
+    numpy array rarely (the unchanged tree refuses them up front with TypeError - counted, never a verdict)."""
+    vals = sorted(set(values))
+    order = str(rng.choice(["ascending", "descending", "descending", "shuffled", "shuffled", "duplicated", "duplicated"]))
+    if order == "descending":
+        vals = vals[::-1]
+    elif order in ("shuffled", "duplicated"):
+        if order == "duplicated":
+            vals = vals + [vals[int(i)] for i in rng.integers(0, len(vals), size=int(rng.integers(1, 4)))]
+        for _ in range(8):
+            vals = [vals[int(i)] for i in rng.permutation(len(vals))]
+            if vals != sorted(vals) or len(vals) < 2:
+                break
+    form = "list"
+    if forms:
+        form = str(rng.choice(["list"] * 15 + ["tuple", "ndarray"]))
+    return vals, order, form
+
+
+def _max_num_RC(test, n_u):
+    mx = 2 * n_u - 5
+    if test.endswith("-inv"):
+        mx = min(n_u + 10, mx)
+    return min(mx, 40)
+
+
+def _explicit_num_RCs(rng, o, ctx, block=0.0):
+    """block: probability of a contiguous block of values (the suggestion algorithms of the exploratory route need a dense
+    range; sparse lists mostly end in an IndexError of suggest_num_RC_limits, which is C18's business)."""
+    mx = _max_num_RC(o["test"], ctx["n_u"])
+    if rng.random() < block:
+        k = int(rng.integers(6, 13))
+        a = 2 if rng.random() < 0.5 else int(rng.integers(2, max(3, mx - k)))
+        values = list(range(a, min(mx, a + k) + 1))
+    else:
+        values = [int(v) for v in rng.integers(2, mx + 1, size=int(rng.integers(3, 9)))]
+    vals, order, form = _list_arg(rng, values)
+    o["num_RCs"] = vals
+    o["num_RCs_order"] = order   # bookkeeping only, removed before the call
+    o["num_RCs_form"] = form     # list | tuple | ndarray, applied in _invoke
+
+
+def _lstsq_or_inv(rng):
+    return str(rng.choice(["real", "complex", "imaginary", "real", "complex", "imaginary", "complex-inv", "real-inv", "imaginary-inv"]))
+
+
+def opts_logfext_list(rng, ctx):
+    """evaluate_log_F_ext with an explicit num_RCs list that is not (necessarily) ascending or duplicate-free."""
+    o = _kk_common(rng, _lstsq_or_inv(rng))
+    o["admittance"] = bool(rng.random() < 0.5)
+    o["num_F_ext_evaluations"] = 0
+    o["log_F_ext"] = float(rng.choice([0.0, rng.uniform(-0.5, 0.5)]))
+    _explicit_num_RCs(rng, o, ctx)
+    return o, None
+
+
+def opts_explore_list(rng, ctx):
+    """perform_exploratory_kramers_kronig_tests with an explicit, hostile num_RCs list and (sometimes) a hostile `methods` list."""
+    o = _kk_common(rng, _lstsq_or_inv(rng))
+    o["admittance"] = [None, True, False][int(rng.integers(0, 3))]
+    o["num_F_ext_evaluations"] = 0
+    o["log_F_ext"] = float(rng.choice([0.0, rng.uniform(-0.5, 0.5)]))
+    _explicit_num_RCs(rng, o, ctx, block=0.65)
+    if rng.random() < 0.4:
+        m, _order, _form = _list_arg(rng, [int(v) for v in rng.integers(1, 7, size=int(rng.integers(1, 5)))], forms=False)
+        o["methods"] = m
+        if len(m) > 1:
+            o[str(rng.choice(["use_mean", "use_sum", "use_ranking"]))] = True
+    return o, None
+
+
 def opts_logfext(rng, ctx):
     o = _kk_common(rng, str(rng.choice(["real", "complex", "imaginary", "complex-inv", "real-inv"])))
     o["admittance"] = bool(rng.random() < 0.5)
@@ -686,11 +783,7 @@ def opts_logfext(rng, ctx):
     if o["num_F_ext_evaluations"] == 0:
         o["log_F_ext"] = float(rng.choice([0.0, rng.uniform(-0.5, 0.5)]))
         if rng.random() < 0.5:
-            mx = 2 * ctx["n_u"] - 5
-            if o["test"].endswith("-inv"):
-                mx = min(ctx["n_u"] + 10, mx)
-            k = int(rng.integers(1, 6))
-            o["num_RCs"] = sorted(set(int(v) for v in rng.integers(2, min(mx, 40) + 1, size=k)))
+            _explicit_num_RCs(rng, o, ctx)
     else:
         o["rapid_F_ext_evaluations"] = bool(rng.random() < 0.7)
         o["min_log_F_ext"] = float(rng.choice([-1.0, -0.5]))
@@ -805,6 +898,9 @@ def opts_fit(mode="single"):
         elif mode == "list":
             o = {"method": [str(m) for m in rng.permutation(FIT_METHODS)[: int(rng.integers(2, 4))]],
                  "weight": [str(w) for w in rng.permutation(FIT_WEIGHTS)[: int(rng.integers(1, 3))]]}
+            if rng.random() < 0.3:  # list arguments are also fed with repeated entries
+                key = str(rng.choice(["method", "weight"]))
+                o[key] = o[key] + [o[key][int(rng.integers(0, len(o[key])))]]
         else:
             o = {"method": "auto", "weight": "auto"}
         if rng.random() < 0.2:
@@ -848,6 +944,9 @@ def _plan(tier):
         P.append(("zhit-auto-all", "zhit", opts_zhit(auto="all"), 10, 26, 9, None, "mix", 1, 1, 12.0, 12))
         P.append(("drt-lm-chisqr-default", "drt", opts_lm("pseudo_chisqr_default"), 10, 30, 9, None, False, 1, 1, 10.0, 12))
         P.append(("kk-auto-cnls", "kk", opts_kk_auto("cnls", 0), 8, 16, 8, None, False, 1, 1, 10.0, 12))
+    # hostile list arguments (appended last so that the seeds of the cells above stay what they were)
+    P.append(("logfext-list", "logfext", opts_logfext_list, 10, 60, 9, None, "mix", 3, 10, 0.7, c(3, 30)))
+    P.append(("explore-list", "explore", opts_explore_list, 10, 60, 9, None, "mix", 2, 10, 3.5, c(3, 30)))
     return P
 
 
@@ -925,7 +1024,7 @@ def run_case(case):
     for item in items:
         nres = check_item(item, acc)
         if nres > 0:
-            keys.append((cell_of(item), len(item["f"]), item["asc"], tuple(item["mask"])))
+            keys.append((cell_of(item), len(item["f"]), item["asc"], tuple(item["mask"]), tuple(item["opts"].get("num_RCs", ()))))
         if sample is None:
             sample = _slim(item)
             sample["results_constructed_in_base_run"] = nres
